@@ -570,6 +570,9 @@ def _special_cases():
     # key tables at distinct, overlapping offsets (one alignment step apart), each as large as the rest of the file
     for refs in (50, 200):
         out.append({"kind": "special", "what": "hyperv-object-fanout", "refs": refs, "type": "key-table-overlapping"})
+    # thousands of tiny key tables (10 bytes each, one per 16 bytes of the file): the work per table does not grow with the
+    # number of tables already loaded
+    out.append({"kind": "special", "what": "hyperv-object-fanout", "refs": 12000, "type": "key-table-many-small"})
     for where in ("first", "middle", "last", "only"):
         for how in ("handles", "descriptor"):
             out.append({"kind": "special", "what": "vmdk-zero-sector-extent", "where": where, "how": how})
@@ -1267,11 +1270,29 @@ def _run_special(case, ctx):
         if typ == "replay-log":
             ents.append((2, 0x20000, tsize, 1))
         big = None
+        if typ == "key-table-many-small":
+            big = 16 * refs
+            ents = [(6, 0x8000, 0x1000, 1)] + [(2, 0x80000 + 16 * j, 10, 1) for j in range(refs)]
         if typ == "key-table-overlapping":
             # table j starts j x 0x1000 into one 2 MiB area and claims everything up to the end of the file
             big = 2 << 20
             ents = [(6, 0x8000, 0x1000, 1)] + [(2, 0x20000 + 0x1000 * j, big - 0x1000 * j, 1) for j in range(refs)]
         ot = BHV.objtable(ents, n=len(ents) + 2)
+        if typ == "key-table-many-small":
+            buf = bytearray(0x80000)
+            buf[0:0x30] = BHV.header(7, 0x8000).ljust(0x30, b"\0")[:0x30]
+            buf[0x1000:0x1030] = BHV.header(6, 0x8000).ljust(0x30, b"\0")[:0x30]
+            buf[0x8000:0x8000 + len(rl)] = rl
+            assert 0x9000 + len(ot) <= 0x80000
+            # (the object table is larger than the gap in front of the replay log: it lives behind it, named by the first table)
+            first = BHV.objtable([(1, 0x9000, len(ot), 1)], n=4)
+            buf[0x2000:0x2000 + len(first)] = first
+            buf[0x9000:0x9000 + len(ot)] = ot
+            area = bytearray(big)
+            for j in range(refs):
+                area[16 * j:16 * j + 10] = struct.pack("<HHHI", 2, j + 1, 5, 0)
+            raw = bytes(buf) + bytes(area)
+            return _execute(ctx, case, None, raw, subject, drv_hyperv, {}, len(raw))
         assert 0x2000 + len(ot) <= 0x8000
         buf[0x2000:0x2000 + len(ot)] = ot
         body = struct.pack("<HHHI", 2, 1, 5, 0)
